@@ -33,7 +33,12 @@ RULE = ('all ordered pairs (a, b) of rectangular tables: width 1 over K6 = {None
         'the reduced alphabets) x operand kind of each side independently: additionally etl.sort(t, reverse=True), '
         'etl.sort(t, <last field>), etl.sort(t, buffersize=1), cache(t) and a generator-backed Table, every '
         'combination with at least one of them (65), under every call form incl. the hash variants, without '
-        'presorted for the re-ordering kinds (form set "kind"). states = (pair, call form, operand combination) '
+        'presorted for the re-ordering kinds (form set "kind"); x chunk size supplied through '
+        'petl.config.sort_buffersize = 1..max(n, m) with NO buffersize argument, the config kept set while the '
+        'view is built and while it is read (form set "cfg"); x transient-failure histories (form set "flaky"): '
+        'one side\'s source fails once at each position (header, each row, exhaustion) during pass 1 of '
+        'complement / intersection / diff / recordcomplement / recorddiff with buffersize 1..rows of that side '
+        '(its sort spills, cache=True), then passes 2 and 3 on the same view(s) must be the multiset reference. states = (pair, call form, operand combination) '
         'points; a pair is '
         'non-trivial when both sides are non-empty, some row of a occurs in b and some row of a does not. '
         'Excluded: non-rectangular tables (statement), unhashable cells (hash variants cannot take them), '
@@ -172,6 +177,23 @@ def buf_forms(wa, wb):
     return f
 
 
+def cfg_forms(wa, wb, n, m):
+    """No buffersize argument; petl.config.sort_buffersize = c for every c in 1..max(n, m), kept set while the
+    view is built and while it is read (buffersize field 'cfg:<c>')."""
+    f = []
+    for c in range(1, max(n, m) + 1):
+        bs = 'cfg:%d' % c
+        for strict in (False, True):
+            f.append(('complement', strict, bs, False, 'same'))
+        f.append(('intersection', False, bs, False, 'same'))
+        f.append(('diff', False, bs, False, 'same'))
+        if wa == wb:
+            p = _perms(wa)[-1]
+            f.append(('recordcomplement', False, bs, False, 'perm:' + p))
+            f.append(('recorddiff', True, bs, False, 'perm:' + p))
+    return f
+
+
 def form_name(form):
     op, strict, bs, pre, bvar = form
     return op + ('(strict)' if strict else '')
@@ -223,7 +245,19 @@ def _read(view):
 
 
 def observe(form, a, bgiven, cont=PLAIN):
-    """Run the form on the real code.  Returns ('ok', out) / ('ok2', added, subtracted) / ('raises', name, msg)."""
+    """Run the form on the real code.  Returns ('ok', out) / ('ok2', added, subtracted) / ('raises', name, msg).
+    buffersize 'cfg:<c>': no buffersize argument, petl.config.sort_buffersize = c during construction and reading."""
+    if isinstance(form[2], str) and form[2].startswith('cfg:'):
+        saved = etl.config.sort_buffersize
+        try:
+            etl.config.sort_buffersize = int(form[2][4:])
+            return _observe((form[0], form[1], None, form[3], form[4]), a, bgiven, cont)
+        finally:
+            etl.config.sort_buffersize = saved
+    return _observe(form, a, bgiven, cont)
+
+
+def _observe(form, a, bgiven, cont=PLAIN):
     op, strict, bs, pre, bvar = form
     try:
         ta, tb = _tbl(a, cont[0]), _tbl(bgiven, cont[1])
@@ -296,6 +330,115 @@ def judge(form, a, bgiven, obs=None, cont=PLAIN):
     return bad
 
 
+class Boom(Exception):
+    pass
+
+
+class FlakyTable(object):
+    """A source that fails ONCE: the first time position `fail_at` is reached (0 = header, i = i-th data row,
+    len = at exhaustion) Boom is raised instead; every later read is clean."""
+
+    def __init__(self, table, fail_at):
+        self.table = table
+        self.fail_at = fail_at
+        self.failed = False
+
+    def __iter__(self):
+        return self._gen()
+
+    def _gen(self):
+        for pos, item in enumerate(self.table):
+            if pos == self.fail_at and not self.failed:
+                self.failed = True
+                raise Boom('transient failure at item %d' % pos)
+            yield item
+        if self.fail_at == len(self.table) and not self.failed:
+            self.failed = True
+            raise Boom('transient failure at exhaustion')
+
+
+FLAKY_OPS = ('complement', 'intersection', 'diff', 'recordcomplement', 'recorddiff')
+
+
+def flaky_history(op, a, b, side, fail_at, bs):
+    """Build op(a, b, buffersize=bs) (cache left at True) with one side's source failing once at fail_at, read
+    the view(s) three times.  Returns [pass1, pass2, pass3], each ('ok', ...)/('ok2', ...)/('raises', ...)."""
+    ta, tb = _tbl(a), _tbl(b)
+    if side == 'a':
+        ta = FlakyTable(ta, fail_at)
+    else:
+        tb = FlakyTable(tb, fail_at)
+
+    def read_all(views):
+        outs = []
+        for v in views:
+            try:
+                outs.append(_read(v))
+            except Exception as e:
+                return ('raises', type(e).__name__, str(e)[:120])
+        return ('ok',) + tuple(outs) if len(outs) == 1 else ('ok2',) + tuple(outs)
+
+    try:
+        if op == 'complement':
+            views = [etl.complement(ta, tb, buffersize=bs)]
+        elif op == 'intersection':
+            views = [etl.intersection(ta, tb, buffersize=bs)]
+        elif op == 'recordcomplement':
+            views = [etl.recordcomplement(ta, tb, buffersize=bs)]
+        elif op == 'diff':
+            views = list(etl.diff(ta, tb, buffersize=bs))
+        elif op == 'recorddiff':
+            views = list(etl.recorddiff(ta, tb, buffersize=bs))
+        else:
+            raise ValueError(op)
+    except Boom:
+        return None         # the failure hit a header read at construction: no view to read again
+    return [read_all(views) for _ in range(3)]
+
+
+def judge_flaky(op, a, b, side, fail_at, bs, hist=None):
+    """Passes 2 and 3 (and pass 1 when it completes) must be the multiset reference."""
+    if hist is None:
+        hist = flaky_history(op, a, b, side, fail_at, bs)
+    if hist is None:
+        return []
+    form = (op, False, bs, False, 'same')
+    bad = []
+    for i, obs in enumerate(hist):
+        if i == 0 and obs[0] == 'raises':
+            continue                    # the transient failure itself (or its consequence) - not judged
+        for s, e, o, msg in judge(form, a, b, obs):
+            bad.append(('a later pass after a transient source failure: %s' % s, e, o,
+                        '%s: pass %d on the same view after one side failed once during pass 1 - %s' % (op, i + 1, msg)))
+            return bad
+    return bad
+
+
+def run_flaky_pair(a, b, acc):
+    na, nb = len(a[1]), len(b[1])
+    for side, nside in (('a', na), ('b', nb)):
+        for bs in range(1, nside + 1):              # buffersize <= rows of the failing side: its sort spills
+            for fail_at in range(0, nside + 2):
+                for op in FLAKY_OPS:
+                    hist = flaky_history(op, a, b, side, fail_at, bs)
+                    acc.states += 1
+                    acc.counters['flaky-histories'] += 1
+                    if hist is None:
+                        acc.counters['flaky-failed-at-construction'] += 1
+                        continue
+                    acc.transitions += 3
+                    acc.evals += 2 if hist[0][0] == 'raises' else 3
+                    if hist[0][0] == 'raises':
+                        acc.counters['flaky-pass1-raised:' + op] += 1
+                        if nontrivial(a, b):
+                            acc.nontrivial += 1
+                    for s, e, o, msg in judge_flaky(op, a, b, side, fail_at, bs, hist):
+                        acc.violation('%s | %s' % (op, s),
+                                      {'kind': 'flaky', 'op': op, 'side': side, 'fail_at': fail_at, 'buffersize': bs,
+                                       'a': [tuple(a[0])] + [tuple(r) for r in a[1]],
+                                       'b': [tuple(b[0])] + [tuple(r) for r in b[1]], 'sig': s}, e, o, msg)
+
+
 F_COMPLEMENT = ('complement', False, None, False, 'same')
 F_INTERSECTION = ('intersection', False, None, False, 'same')
 
@@ -360,6 +503,9 @@ def _plan(tier):
                 ('w3', 'w3', 2, 2, 'base', 'n+m<=3'),       # width 3: all 6 column permutations of b
                 ('w1s', 'w1s', 2, 2, 'cont', 'all'),        # row-container axis (15 non-plain combinations)
                 ('w2s', 'w2s', 2, 2, 'cont', 'n+m<=3'),
+                ('w1s', 'w1s', 2, 2, 'cfg', 'all'),         # chunk size via petl.config.sort_buffersize
+                ('w2s', 'w2s', 2, 2, 'cfg', 'n+m<=3'),
+                ('w1s', 'w1s', 2, 2, 'flaky', 'n+m<=3'),    # transient source failure, then passes 2 and 3
                 ('w1h', 'w1h', 2, 2, 'base', 'all'),        # hash-equal but different cells
                 ('w2h', 'w2h', 2, 2, 'base', 'all'),
                 ('w1n', 'w1n', 2, 2, 'base', 'all'),        # data rows that equal a header row
@@ -382,6 +528,10 @@ def _plan(tier):
             ('w2s', 'w2s', 2, 2, 'cont', 'all'),
             ('w1s', 'w1s', 2, 2, 'kind', 'all'),
             ('w2s', 'w2s', 2, 2, 'kind', 'all'),
+            ('w1s', 'w1s', 3, 3, 'cfg', 'all'),
+            ('w2s', 'w2s', 2, 2, 'cfg', 'all'),
+            ('w1s', 'w1s', 2, 2, 'flaky', 'all'),
+            ('w2s', 'w2s', 2, 2, 'flaky', 'n+m<=3'),
             ('w1h', 'w1h', 3, 3, 'base', 'all'),
             ('w2h', 'w2h', 3, 3, 'base', 'n+m<=5'),
             ('w1n', 'w1n', 3, 3, 'base', 'all'),
@@ -395,7 +545,7 @@ def items(tier, seed):
     for tot in range(0, 9):
         for sa, sb, maxn, maxm, fs, sel in plan:
             ra, rb = len(_ROWS[sa]), len(_ROWS[sb])
-            target = {'base': 1500, 'buf': 350, 'cont': 100, 'kind': 16}[fs]
+            target = {'base': 1500, 'buf': 350, 'cont': 100, 'kind': 16, 'cfg': 120, 'flaky': 12}[fs]
             if sa == 'w3':
                 target = 700
             for n in range(0, maxn + 1):
@@ -475,8 +625,14 @@ def group_of(name, sig, cont):
 def run_item(item, acc):
     sa, sb, n, m, lo, hi, fs = item
     wa, wb = _width(sa), _width(sb)
-    forms = buf_forms(wa, wb) if fs == 'buf' else base_forms(wa, wb)
-    pre = [] if fs == 'buf' else presorted_forms()
+    if fs == 'flaky':
+        for arows in _tables(sa, n, lo, hi):
+            for brows in _tables(sb, m):
+                run_flaky_pair((HDR[wa], tuple(arows)), (HDR[wb], tuple(brows)), acc)
+                acc.outcome(('flaky', len(arows), len(brows)))
+        return
+    forms = {'buf': buf_forms(wa, wb), 'cfg': cfg_forms(wa, wb, n, m)}.get(fs) or base_forms(wa, wb)
+    pre = [] if fs in ('buf', 'cfg') else presorted_forms()
     ahdr, bhdr = HDR[wa], HDR[wb]
     btables = [tuple(t) for t in _tables(sb, m)]
     bsorted = [is_sorted(t) for t in btables]
@@ -506,6 +662,10 @@ def run_item(item, acc):
                         acc.counters['nt-rows:%s/%s' % cont] += 1
                         if form[4].startswith('perm:'):
                             acc.counters['nt-perm:w%d:%s' % (wa, form[4][5:])] += 1
+                    if fs == 'cfg':
+                        acc.counters['config-forms'] += 1
+                        if nt:
+                            acc.counters['nt-config-forms'] += 1
                     if form[3]:
                         acc.counters['presorted-forms'] += 1
                         if nt:
@@ -517,7 +677,7 @@ def run_item(item, acc):
                         sig.append(len(obs[1][1]))
                     if form in (F_COMPLEMENT, F_INTERSECTION, F_COMPLEMENT_PRE, F_INTERSECTION_PRE):
                         keep[form] = obs
-                if fs != 'buf':
+                if fs not in ('buf', 'cfg'):
                     laws = [(False, F_COMPLEMENT, F_INTERSECTION)]
                     if both:
                         laws.append((True, F_COMPLEMENT_PRE, F_INTERSECTION_PRE))
@@ -533,6 +693,12 @@ def run_item(item, acc):
 
 
 def replay(case):
+    if case.get('kind') == 'flaky':
+        a = (tuple(case['a'][0]), tuple(tuple(r) for r in case['a'][1:]))
+        b = (tuple(case['b'][0]), tuple(tuple(r) for r in case['b'][1:]))
+        bad = [x for x in judge_flaky(case['op'], a, b, case['side'], case['fail_at'], case['buffersize'])
+               if x[0] == case['sig']]
+        return (bad[0][1], bad[0][2], bad[0][3]) if bad else None
     form = (case['op'], case['strict'], case['buffersize'], case['presorted'], case['bvar'])
     a = (tuple(case['a'][0]), tuple(tuple(r) for r in case['a'][1:]))
     b = (tuple(case['b'][0]), tuple(tuple(r) for r in case['b'][1:]))
@@ -559,6 +725,11 @@ def vacuity(cov, tier):
             problems.append('no non-trivial case for ' + name)
     if not c.get('presorted-forms'):
         problems.append('presorted forms never ran')
+    if not c.get('nt-config-forms'):
+        problems.append('no non-trivial case under petl.config.sort_buffersize')
+    for op in FLAKY_OPS:
+        if not c.get('flaky-pass1-raised:' + op):
+            problems.append('no transient-failure history for ' + op)
     for ca in CONTAINERS:
         for cb in CONTAINERS:
             for kind in ('nt-rows', 'nt-presorted-rows'):
